@@ -12,8 +12,8 @@ from xh_support import prepare_cattrs  # noqa: E402
 conv = prepare_cattrs("cl14.core.cattrs_converter")
 S = conv.structure_from_dict
 U = conv.unstructure_to_dict
-from cl14.models import Animal, BarePet, Kit, MixedPet, Pup, Reading  # noqa: E402
-from cl14.models import (AllOpt, BankPay, Basic, CardPay, Cat, Circle, Detailed, Dog, Holder, IntOrStr, ListOrBasic, OptA, OptB, Overlap, OverlapRev, Pay, Pet, Shape,  # noqa: E402
+from cl14.models import Animal, BarePet, Kit, MixedPet, NullablePet, Pup, Reading  # noqa: E402
+from cl14.models import (AllOpt, BankPay, Basic, Card, CardPay, CardRev, Full, Summary, Cat, Circle, Detailed, Dog, Holder, IntOrStr, ListOrBasic, OptA, OptB, Overlap, OverlapRev, Pay, Pet, Shape,  # noqa: E402
                          Square, StrOrBasic)
 
 KINDS = ["cat", "dog"]
@@ -43,7 +43,7 @@ def _same(a, b):
 
 
 for _t, _d in [(Pay, {"method": "credit-card", "pan": "1"}), (Pay, {"method": "credit_card", "iban": "2"}), (Pet, {"kind": "cat", "name": "n", "lives": 1}), (Pet, {"kind": "dog", "name": "n", "barkVolume": 1}), (Shape, {"r": 1}), (Shape, {"side": 1}),
-               (Overlap, {"id": "a"}), (Overlap, {"id": "a", "extra": 1}), (OverlapRev, {"id": "a"}), (OverlapRev, {"id": "a", "extra": 1}),
+               (Overlap, {"id": "a"}), (Overlap, {"id": "a", "extra": 1}), (OverlapRev, {"id": "a"}), (OverlapRev, {"id": "a", "extra": 1}), (NullablePet, {"kind": "dog", "name": "d"}), (Card, {"id": "a"}), (Card, {"id": "a", "displayName": "n", "isActive": True, "class": "c"}), (CardRev, {"id": "a", "class": "c"}), (CardRev, {"id": "a", "displayName": "n"}),
                (AllOpt, {"x": 1}), (AllOpt, {"y": 1}), (IntOrStr, 1), (IntOrStr, "s"), (StrOrBasic, "s"), (StrOrBasic, {"id": "a"}),
                (ListOrBasic, ["a"]), (ListOrBasic, {"id": "a"}), (Reading, {"code": 1, "flag": True, "opt": "s"}), (Reading, {"code": "s", "flag": 1}), (Reading, {"code": None, "flag": None}),
                (Animal, {"species": "cat", "name": "n"}), (Animal, {"species": "kitten", "name": "n"}), (Animal, {"species": "dog", "name": "n"}),
@@ -78,11 +78,11 @@ def tw_pet_discriminated(which: int, name: str, has_extra: bool, n: int) -> bool
 
 def ob_pet_unmapped_value(name: str, v: int) -> bool:
     """
-    pre: len(name) <= 2 and 0 <= v <= 2
+    pre: len(name) <= 2 and 0 <= v <= 5
     post: _
     """
     try:
-        S({"kind": ["bird", "", "Cat"][v], "name": name}, Pet)
+        S({"kind": ["bird", "", "Cat", None, 0, False][v], "name": name}, Pet)
     except (ValueError, TypeError):
         return True
     return False
@@ -90,11 +90,11 @@ def ob_pet_unmapped_value(name: str, v: int) -> bool:
 
 def tw_pet_unmapped_value(name: str, v: int) -> bool:
     """
-    pre: len(name) <= 2 and 0 <= v <= 2
+    pre: len(name) <= 2 and 0 <= v <= 5
     post: _
     """
     try:
-        S({"kind": ["bird", "", "Cat"][v], "name": name}, Pet)
+        S({"kind": ["bird", "", "Cat", None, 0, False][v], "name": name}, Pet)
     except (ValueError, TypeError):
         pass
     return False
@@ -167,6 +167,31 @@ def tw_overlap_subset(rev: bool, detailed: bool, i: str, extra: int, has_note: b
     post: _
     """
     S({"id": i}, OverlapRev if rev else Overlap)
+    return False
+
+
+def ob_renamed_overlap(rev: bool, full: bool, i: str, has_active: bool, active: bool, has_class: bool) -> bool:
+    """
+    pre: len(i) <= 2
+    post: _
+    """
+    doc = {"id": i}
+    if full:
+        doc["displayName"] = i + "n"
+        if has_active:
+            doc["isActive"] = active
+    if has_class:
+        doc["class"] = "c" + i
+    x = S(dict(doc), CardRev if rev else Card)
+    return isinstance(x, Full if full else Summary) and _norm(_enc(x)) == _norm(doc)
+
+
+def tw_renamed_overlap(rev: bool, full: bool, i: str, has_active: bool, active: bool, has_class: bool) -> bool:
+    """
+    pre: len(i) <= 2
+    post: _
+    """
+    S({"id": i, "displayName": "n"}, CardRev if rev else Card)
     return False
 
 
@@ -374,9 +399,36 @@ def tw_holder_pet_and_shape(pk: int, name: str, has_shape: bool, sk: int, v: int
 # '__hash__ method should return an integer' for a symbolic element, natively the same input passes)
 
 
+def ob_nullable_pet_alias(mode: int, pk: int, name: str) -> bool:
+    """
+    pre: 0 <= mode <= 2 and 0 <= pk <= 1 and len(name) <= 1
+    post: _
+    """
+    # nullable + discriminator on one named union: the mapping still decides (the payload's keys alone cannot)
+    if mode == 0:
+        x = S({"kind": KINDS[pk], "name": name}, NullablePet)
+        return isinstance(x, [Cat, Dog][pk]) and _norm(_enc(x)) == {"kind": KINDS[pk], "name": name}
+    if mode == 1:
+        return S(None, NullablePet) is None
+    try:
+        S({"kind": KINDS[pk], "name": name, ["lives", "barkVolume"][pk]: "zz"}, NullablePet)
+    except (ValueError, TypeError):
+        return True
+    return False
+
+
+def tw_nullable_pet_alias(mode: int, pk: int, name: str) -> bool:
+    """
+    pre: 0 <= mode <= 2 and 0 <= pk <= 1 and len(name) <= 1
+    post: _
+    """
+    S({"kind": KINDS[pk], "name": name}, NullablePet)
+    return False
+
+
 def ob_holder_nullable_pet(maybe: int, pk: int, name: str, v: int) -> bool:
     """
-    pre: 0 <= maybe <= 2 and 0 <= pk <= 1 and len(name) <= 1
+    pre: 0 <= maybe <= 3 and 0 <= pk <= 1 and len(name) <= 1
     post: _
     """
     doc = {"pet": {"kind": "cat", "name": "n"}}
@@ -384,8 +436,10 @@ def ob_holder_nullable_pet(maybe: int, pk: int, name: str, v: int) -> bool:
         doc["maybePet"] = None
     elif maybe == 2:
         doc["maybePet"] = {"kind": KINDS[pk], "name": name, ["lives", "barkVolume"][pk]: v}
+    elif maybe == 3:
+        doc["maybePet"] = {"kind": KINDS[pk], "name": name}
     h = S(copy.deepcopy(doc), Holder)
-    if maybe == 2 and not isinstance(h.maybe_pet, [Cat, Dog][pk]):
+    if maybe >= 2 and not isinstance(h.maybe_pet, [Cat, Dog][pk]):
         return False
     return _norm(U(h)) == _norm(doc)
 
